@@ -277,7 +277,7 @@ func (e *vfE1NumEnv) exec(line string) (op string, impl string, redo bool) {
 			}
 			return op, "other:" + err.Error(), false
 		}
-		_, pri, found := vfE1FindDeferred(e.ch, msg.Body, time.Second)
+		_, pri, found := vfE1FindDeferred(e.ch, msg.Body, 15*time.Second)
 		if !found {
 			return op, "lost", false
 		}
@@ -315,7 +315,7 @@ func (e *vfE1NumEnv) exec(line string) (op string, impl string, redo bool) {
 		ft, data, _ := nsq.UnpackResponse(resp)
 		switch {
 		case ft == frameTypeResponse && string(data) == "OK":
-			m, _, found := vfE1FindDeferred(e.wch, body, 2*time.Second)
+			m, _, found := vfE1FindDeferred(e.wch, body, 15*time.Second)
 			if !found {
 				return op, "lost", false
 			}
@@ -348,7 +348,7 @@ func (e *vfE1NumEnv) exec(line string) (op string, impl string, redo bool) {
 		resp.Body.Close()
 		switch {
 		case resp.StatusCode == 200:
-			m, _, found := vfE1FindDeferred(e.wch, body, 2*time.Second)
+			m, _, found := vfE1FindDeferred(e.wch, body, 15*time.Second)
 			if !found {
 				return op, "lost", false
 			}
@@ -406,7 +406,7 @@ func (e *vfE1NumEnv) exec(line string) (op string, impl string, redo bool) {
 			}
 			return opn + " 0 0", fmt.Sprintf("other:%d:%s", ft, d), false
 		}
-		_, pri, found := vfE1FindDeferred(rch, body, time.Second)
+		_, pri, found := vfE1FindDeferred(rch, body, 15*time.Second)
 		t1 := time.Now().UnixNano()
 		e.hist["reqtcp:ok"]++
 		if !found {
